@@ -308,7 +308,7 @@ def runner_fold(prog, repetitions, flags=None, seed=77):
 from cpv.build import AnalysisBroken as AnalysisBroken_
 
 
-def registry_fold(prog, tests, flags=(0, 0), during=None):
+def registry_fold(prog, tests, flags=(0, 0), during=None, ignored=()):
     """Fold TestRegistry::runAllTests over a model list of tests. tests: list of (group, selected). flags:
     (runInSeperateProcess_, runIgnored_). Every UtestShell / TestResult method is a recording stub; every
     TestRegistry member the loop calls is inlined, so helpers are transparent. Returns (event log, env after)."""
@@ -367,6 +367,8 @@ def registry_fold(prog, tests, flags=(0, 0), during=None):
         log.append(("shouldRun", idx[o]) + tuple(x for x in a_ if isinstance(x, int)))
         return 1 if tests[idx[o]][1] else 0
     hooks["UtestShell::shouldRun"] = should_run
+    # (tests listed in `ignored` are ignored tests: they answer willRun() with false)
+    hooks["UtestShell::willRun"] = lambda o=None, *a_: (0 if idx[o] in ignored else 1) if o in idx else None
     # the registry as its own constructor and public operations leave it: tests registered (addTest prepends: last one
     # first), filters and run options set, one plugin installed - its private members are not named here
     from .common import object_state
